@@ -45,6 +45,7 @@ ASSUMPTIONS = [
     "whether the attacher is consulted at all for a .exit target is not judged; only that nothing is sent",
     "bounded progress: a via-circuit connect() whose circuit stays BUILT must not fail before even trying its SOCKS endpoint",
     "a stream that was new while the attacher was installed is owed its decision even if the attacher is removed before its Deferred/coroutine answer arrives (Tor left that stream to the controller)",
+    "Tor may refuse an ATTACHSTREAM (552 Unknown circuit: the circuit closed a moment ago); the stream still gets exactly the one decision the attacher made, nothing is sent in its place",
     "a stream first heard of when it is already CLOSED/FAILED is not attachable: no decision may be sent for it; a decided stream that later ends (FAILED then CLOSED, DETACHED/FAILED/CLOSED, or CLOSED) gets no further decision",
     "the local port of a via-circuit connection whose SOCKS link died before Tor announced a stream may be handed to a later via-circuit connection through another circuit; that one must be attached to its own circuit",
 ]
@@ -54,7 +55,8 @@ ANCHORS = ["txtorcon.torstate:TorState._maybe_attach", "txtorcon.torstate:TorSta
            "txtorcon.circuit:_CircuitAttacher.attach_stream", "txtorcon.circuit:_CircuitAttacher._add_real_target",
            "txtorcon.circuit:TorCircuitEndpoint.connect", "txtorcon.attacher:PriorityAttacher.attach_stream"]
 FLOORS = {"quick": {"evaluations": 800, "streams_judged": 2500, "via_connections_judged": 600,
-                    "via_connections_on_a_reused_local_port": 30, "events_for_unattached_stream_while_attacher_undecided": 100, "attacher_removed_while_answers_pending": 40, "streams_first_seen_already_closed": 80,
+                    "via_connections_on_a_reused_local_port": 30, "events_for_unattached_stream_while_attacher_undecided": 100, "attacher_removed_while_answers_pending": 40, "attachstream_commands_refused_by_tor": 15,
+                    "second_attacher_compares_equal": 50, "streams_first_seen_already_closed": 80,
                     "streams_first_seen_already_failed": 80, "decided_streams_ended_by_failed": 300,
                     "reach:txtorcon.torstate:TorState._maybe_attach": 2000,
                     "reach:txtorcon.circuit:_CircuitAttacher.attach_stream": 500},
@@ -173,6 +175,10 @@ class World(object):
             self.bad_attach.append(rest)
             return (512, [("end", "Invalid arguments")])
         self.attach_lines.append((sid, cid, len(self.tor.lines)))
+        if sid in getattr(self, "refuse_attach", ()):
+            # e.g. the circuit closed a moment ago and its CIRC CLOSED event is still on its way
+            self.attach_refused = getattr(self, "attach_refused", 0) + 1
+            return (552, [("end", "Unknown circuit \"%d\"" % cid)])
         return OK
 
     def circ_event(self, cid, status, nhops=None, extra=""):
@@ -270,7 +276,7 @@ def make_attacher(world, plan, log):
                 return self.resolve(sid)
             if p["mode"] == "deferred":
                 d = defer.Deferred()
-                self.pending[sid] = d
+                self.pending.setdefault(sid, []).append(d)
                 return d
             if p["mode"] == "coroutine":
                 async def co():
@@ -279,7 +285,7 @@ def make_attacher(world, plan, log):
                     return self.resolve(sid)
                 return co()
             d = defer.Deferred()
-            self.pending[sid] = d
+            self.pending.setdefault(sid, []).append(d)
 
             async def co2():
                 return await d
@@ -289,13 +295,12 @@ def make_attacher(world, plan, log):
             log.append(("failure", stream.id))
 
         def fire(self, sid):
-            d = self.pending.pop(sid, None)
-            if d is None:
-                return
-            if plan[sid]["answer"] == "raise":
-                d.errback(RuntimeError("attacher raises"))
-            else:
-                d.callback(self.resolve(sid))
+            # every time it was asked about the stream it owes an answer
+            for d in self.pending.pop(sid, []):
+                if plan[sid]["answer"] == "raise":
+                    d.errback(RuntimeError("attacher raises"))
+                else:
+                    d.callback(self.resolve(sid))
     return Attacher()
 
 
@@ -327,6 +332,7 @@ def run_answers(case, rec):
         w.close()
         return
     w.kept = dict(w.state.circuits)
+    w.refuse_attach = set(case.get("refuse_attach", ()))
     plan = {}
     for s in case["streams"]:
         plan[s["sid"]] = s
@@ -440,6 +446,12 @@ def run_answers(case, rec):
         elif op == "second-attacher":
             alog2 = []
             other = make_attacher(w, {}, alog2)
+            if case.get("second_equal"):
+                # a different object that compares equal to the installed one (dataclass / attrs /
+                # namedtuple attachers built from the same fields do)
+                other.__class__.__eq__ = lambda a, b: True
+                other.__class__.__hash__ = lambda a: 1
+                rec.count("second_attacher_compares_equal")
             n0 = len(w.tor.lines)
             try:
                 w.state.set_attacher(other, w.reactor)
@@ -467,6 +479,8 @@ def run_answers(case, rec):
         got = [(s, c) for (s, c, _) in w.attach_lines if s == sid]
         exp = decided_at[sid]
         icls = "exit-target" if p["kind"] == "exit" else "answer=%s" % p["answer"]
+        if sid in w.refuse_attach and got:
+            icls += "+tor-refused-the-attachstream"
         if sid >= 70:
             icls = "stream-first-seen-when-already-over"
         elif any(st[0] == "later" and st[1] == sid and st[2] in ("FAILED", "CLOSED") for st in case["steps"]):
@@ -489,6 +503,7 @@ def run_answers(case, rec):
     if ninvalid and not (w.reported or logged):
         rec.violation("invalid-answer-not-reported", "invalid-answer", {"invalid": ninvalid}, case)
     rec.count("invalid_answers_reported", len(w.reported))
+    rec.count("attachstream_commands_refused_by_tor", getattr(w, "attach_refused", 0))
     # streams nobody planned for must not appear at the server
     for (s, c, _) in w.attach_lines:
         if s not in plan:
@@ -586,7 +601,9 @@ def gen_answers_case(rnd, combo=None):
         for g in range(rnd.choice([1, 1, 2])):
             steps.insert(rnd.randrange(len(steps) + 1),
                          ("ghost", 70 + g, rnd.choice(["CLOSED", "FAILED"]), rnd.choice(["none", "built", "dna"])))
+    refuse = [s["sid"] for s in streams if rnd.random() < 0.12]
     return {"kind": "answers", "streams": streams, "steps": steps, "remove": rnd.random() < 0.4 and not removed_mid,
+            "refuse_attach": refuse, "second_equal": rnd.random() < 0.5,
             "priority": rnd.choice([0, 0, 2, 5]), "priority_late": rnd.random() < 0.4,
             "remove_before_ack": rnd.random() < 0.2, "chunking": gen.chunking(rnd)}
 
